@@ -208,6 +208,16 @@ func (w *World) checkCommitted(h int64, res *BlockResult, block *tmtypes.Block, 
 		seen := map[Addr]bool{}
 		wAt := m.StateAt(h)
 		for _, a := range accts {
+			if len(a.Address) != 20 {
+				// a rejected tx with a malformed receiver leaves an empty record under the malformed key (the
+				// receiver is looked up or created before validation): unobservable through any query and not an
+				// account; anything but an empty record there would be a real problem
+				if a.Balance.Sign() != 0 || a.Nonce != 0 || a.Name != "" || len(a.Code) != 0 {
+					w.violate("acct.malformed-address", []string{"C05", "C09"}, h, "record with a %d-byte address %x holds balance %s nonce %d", len(a.Address), []byte(a.Address), a.Balance.Dec(), a.Nonce)
+				}
+				w.Probes.Hit("acct.empty-record-malformed-address")
+				continue
+			}
 			addr := ToAddr(a.Address)
 			seen[addr] = true
 			bal := a.Balance.ToBig()
